@@ -41,6 +41,7 @@ type Engine struct {
 	lockClasses   map[string]bool // "pkg.Type.mutexPath" -> sections must be non-blocking
 	structInvs    []*StructInv
 	conformIfaces map[string]bool // interfaces whose in-repo implementations are checked against the interface contracts
+	tagSeq        int64
 	solverSem     chan struct{} // bounds the number of concurrently running solver processes started from within one function
 	owned         map[string]string // "pkg.Type" -> ghost field that must be 1 to touch the object
 	views         map[string]map[string]*Contract
@@ -539,6 +540,8 @@ func (e *Engine) solve(fc *FnCtx) {
 	if len(tag) > 100 {
 		tag = tag[:100] + fmt.Sprint(tagID(tag))
 	}
+	// unique per job: a function's own job and its conformance jobs run concurrently
+	tag = fmt.Sprintf("%s_j%d", tag, atomic.AddInt64(&e.tagSeq, 1))
 	script, order := fc.sc.render(e.timeoutMs, nil)
 	t0 := time.Now()
 	wall := time.Duration(len(order)+5) * time.Duration(e.timeoutMs) * time.Millisecond
